@@ -372,10 +372,13 @@ class Gen:
                 base.append({"side": base_side, "op": "create", "path": p, "data": self.contents.fresh(base_side),
                              "obj": 0})
         sched = []
+        fresh = set()                   # (side, path) created by that side's user in the current window
         for _ in range(nops):
             side = rng.randrange(2)
             p = rng.choice(paths)
             r = rng.random()
+            if not clash and r >= 0.8 and (side, p) in fresh:
+                r = 0.5                 # no delete of an object created in this window (hazard HQ, finding K19): edit it
             if dirside.get(p) == side:
                 op = {"side": side, "op": "mkdir" if r < 0.7 else "rmdir", "path": p}
             elif r < 0.4:
@@ -385,8 +388,13 @@ class Gen:
             else:
                 op = {"side": side, "op": "delete", "path": p}
             op["obj"] = 0
+            if op["op"] == "create":
+                fresh.add((side, p))
             sched.append(["U", op])
-            sched.extend(self.gap(shape))
+            gap = self.gap(shape)
+            sched.extend(gap)
+            if ["Q"] in gap:
+                fresh.clear()
         return {"family": "CLASH" if clash else "CONF", "flavour": flavour, "shape": shape, "base": base,
                 "base_side": base_side, "sched": sched, "expect": None}
 
